@@ -7,9 +7,15 @@ From Coq Require Import List NArith Bool Arith.
 From AMV Require Import Conc.Dispose Spec.C13.
 Import ListNotations.
 
-(* the repairs present in the implementation under test: none (the tree as
-   found). Switch a knob on when the corresponding fix lands in /repo. *)
-Definition impl_fixes : fixes := no_fixes.
+(* the repairs present in the implementation under test. Switch a knob on
+   when the corresponding fix lands in /repo (a fix without its knob, or a
+   knob without its fix, shows up as kind-1 mismatches). Present now:
+   Subscriptions.dispose closes whenQuery bindings; When / WhenNot / WhenArgs
+   return Closed when mustParseStates returns nil. *)
+Definition impl_fixes : fixes :=
+  {| fx_close_query := true; fx_recheck := false; fx_nil_guard := true;
+     fx_ctx_closed := false; fx_ctx_watch := false; fx_err_guard := false;
+     fx_tx_guard := false |}.
 
 Record c13case := {
   k_mode : nat;            (* 0 gated; 1..7 trigger of a whole-run case *)
